@@ -34,6 +34,9 @@ def correspond(ctx):
     for k in RW:
         K.corr_roundtrip(ctx, ADAPTERS[k], ctx.n(25, 250), generations=2)
     _fchk.corr_objects(ctx, ctx.n(40, 300), generations=2)
+    from ._cube import CUBE
+
+    K.corr_roundtrip(ctx, CUBE, ctx.n(40, 300), generations=2)
 
 
 def search(ctx):
